@@ -106,6 +106,10 @@ JwkScripts ==
                Def(KEc, "x", "short"), Def(KEc, "d", "number")>>) >>,
     << LoadOp(<<Def(AsymKey("ed25519a", 1, NONE, NONE), "crv", "absent"), Def(AsymKey("ed25519a", 0, NONE, NONE), "x", "absent"),
                Def(AsymKey("ed25519a", 0, NONE, NONE), "crv", "unknownstr"), Def(AsymKey("ed25519a", 0, NONE, NONE), "x", "short")>>) >>,
+    \* attribute members of the wrong JSON type on otherwise good keys: taken, ignored or refused - if refused, explained
+    << LoadOp(<<Def(KOct, "key_ops", "unknownstr"), Def(KOct, "key_ops", "number"), Def(KEc, "key_ops", "null"), Def(KRsa, "key_ops", "object"),
+               Def(KOct, "use", "number"), Def(KEc, "use", "array"), Def(KRsa, "kid", "number"), Def(AsymKey("ed25519a", 1, NONE, NONE), "kid", "object"),
+               Def(AsymKey("ed25519a", 0, NONE, NONE), "key_ops", "bool"), Def(KOct, "alg", "array"), Def(KEc, "alg", "null")>>) >>,
     \* unknown names that do not fit the message buffer: the item is still explained
     << LoadOp(<<Def(KOct, "kty", "unknownlong"), Def(KEc, "crv", "unknownlong"), Def(AsymKey("ed25519a", 0, NONE, NONE), "crv", "unknownlong"),
                Def(AsymKey("ed448a", 1, NONE, NONE), "crv", "unknownlong"), Def(KRsa, "kty", "unknownlong")>>) >> }
@@ -126,5 +130,21 @@ MapScripts ==
                            [k |-> "set", which |-> "hdr", v |-> Val("str", "typ", "#hex:fffe", 1), map |-> 0] >>), GenerateOp(0) >> }
 
 \* (families, not their union: see ISpecFam in Interp.tla)
+\* stage 'faults': every allocation request made inside verify / generate fails once: whatever the call returns,
+\* return value, error flag and message agree
+FaultScriptsV ==
+  { << LoadOp(<<KOct>>), CNewOp, CSetKeyOp("HS256", 0), VerifyOp(Good(KOct, "HS256")), VerifyOp(WithSig(Good(KOct, "HS256"), Sig("flipbit", "HS256", KOct))) >>,
+    << LoadOp(<<KRsaPub>>), CNewOp, CSetKeyOp("RS256", 0), CSetCbOp(<<>>), VerifyOp(Good(KRsaPub, "RS256")), VerifyOp(WithClm(Good(KRsaPub, "RS256"), <<IntM("exp", Past)>>)) >>,
+    << LoadOp(<<[KEc EXCEPT !.priv = 0]>>), CNewOp, CSetKeyOp("ES256", 0), CClaimSetOp("iss", "me"), VerifyOp(Good([KEc EXCEPT !.priv = 0], "ES256")) >> }
+FaultScriptsG ==
+  { << LoadOp(<<KOct>>), BNewOp, BSetKeyOp("HS256", 0), GenerateOp(0) >>,
+    << LoadOp(<<KRsa>>), BNewOp, BSetKeyOp("RS256", 0), BSetCbOp(<<>>), GenerateOp(0) >>,
+    << LoadOp(<<KEc>>), BNewOp, BSetKeyOp("ES256", 0), GenerateOp(0) >>, << BNewOp, GenerateOp(0) >> }
+FaultScriptsL ==
+  { << LoadOp(<<KOct, KRsaPub>>) >>, << LoadOp(<<KEc, AsymKey("ed25519a", 1, NONE, NONE)>>) >>,
+    << LoadOp(<<Def(KOct, "k", "absent"), Def(KEc, "crv", "unknownstr"), KRsa>>) >> }
+MCSpecFaultL == ISpecFam(<<FaultScriptsL>>)
+MCSpecFaultV == ISpecFam(<<FaultScriptsV>>)
+MCSpecFaultG == ISpecFam(<<FaultScriptsG>>)
 MCSpec == ISpecFam(<<VerifyScripts, PolicyScripts, BuilderScripts, JwkScripts, MapScripts>>)
 =============================================================================
